@@ -1,9 +1,8 @@
-"""C18 - t2grid.rectgeo (the real method, run by the executor) on the grid fromgeo() builds from a real rectangular
-geometry at the origin: spacings, surfaces, atmosphere arrangement and the block-name map are recovered.
-
-The nested function match_position (rotation through asin / degrees / sin / cos and a translation) is replaced by the
-identity: for a geometry whose first node is at the horizontal origin, whose top is at elevation 0 and which is not rotated,
-that is what it computes (angle 0, translation 0) - stated as an assumption; position and orientation are bounded."""
+"""C18 - t2grid.rectgeo (the real method with all its nested functions, run by the executor) on the grid fromgeo()
+builds from a real rectangular geometry with symbolic origin, spacings and surfaces: spacings, position, orientation
+(angle 0), surfaces, atmosphere arrangement and the block-name map are recovered.  match_position runs for real: for an
+unrotated geometry asin(1) = pi/2 exactly, the heading is pi/2, the angle 0.5*pi - pi/2 = 0 and the rotation the identity
+(pi is one real constant); rotated originals are bounded."""
 import z3
 from pyvc.engine import Obj, NVec
 from pyvc import library as L
@@ -20,7 +19,7 @@ def p_rectgeo(e, arg):
     onelayer = len(arg) > 6 and arg[6] == 'onelayer'
     tag = '[%dx%dx%d,atm%d,conv%d,%d surfaces%s]' % (tuple(arg[:6]) + (',onelayer' if onelayer else '',))
     def prog(e):
-        geo, S = build_rect(e, nx, ny, nz, atm, 0, nsurf, origin=[0, 0, 0])
+        geo, S = build_rect(e, nx, ny, nz, atm, 0, nsurf, origin=[e.sym_real('ox'), e.sym_real('oy'), e.sym_real('oz')])
         snap = z3.RealVal('1/10')
         # the quantifier: surfaces leave at least the bottom layer complete; layers and surface blocks thicker than layer_snap
         for k in range(min(nsurf, nx * ny)):
@@ -38,8 +37,6 @@ def p_rectgeo(e, arg):
         e.assume(geo.fields['atmosphere_volume'] >= 10 ** 25)      # atmosphere blocks are not active blocks (volume >= atmos_volume)
         tg = e.load_module('t2grids').globals
         grid = e.call(e.getattr(e.call(tg['t2grid'], []), 'fromgeo'), [geo])
-        e.opaque['t2grid.rectgeo.match_position'] = lambda eng, args, kwargs: args[0]
-        e.assumptions_used.add('rectgeo.match_position (asin / degrees / rotate / translate) is replaced by the identity: the original geometry is at the origin and not rotated')
         try:
             geo2, bm = e.call(e.getattr(grid, 'rectgeo'), [], {'atmos_type': atm, 'convention': convention})
         except PyExc as ex:
@@ -48,7 +45,7 @@ def p_rectgeo(e, arg):
         f2 = geo2.fields
         # spacings in the three directions
         lays = f2['layerlist']
-        okz = len(lays) == nz + 1 and all(_valid(e, to_real(l.fields['top']) - to_real(l.fields['bottom']) == S['dz'][k]) for k, l in enumerate(lays[1:]))
+        okz = len(lays) == nz + 1 and _valid(e, to_real(lays[0].fields['bottom']) == to_real(S['org'][2])) and all(_valid(e, to_real(l.fields['top']) - to_real(l.fields['bottom']) == S['dz'][k]) for k, l in enumerate(lays[1:]))
         e.prove(okz, 'post:same_layer_thicknesses' + tag)
         cols2 = f2['columnlist']
         okxy = len(cols2) == nx * ny
@@ -56,10 +53,12 @@ def p_rectgeo(e, arg):
             for ci, c in enumerate(cols2):
                 i, j = ci % nx, ci // nx
                 xs = [to_real(n.fields['pos'].items[0]) for n in c.fields['node']]; ys = [to_real(n.fields['pos'].items[1]) for n in c.fields['node']]
-                x0 = sum(S['dx'][:i]); y0 = sum(S['dy'][:j])
+                x0 = S['org'][0] + sum(S['dx'][:i]); y0 = S['org'][1] + sum(S['dy'][:j])
                 okxy = okxy and _valid(e, z3.And(*[z3.Or(x == x0, x == x0 + S['dx'][i]) for x in xs] + [z3.Or(y == y0, y == y0 + S['dy'][j]) for y in ys] +
                                                  [to_real(c.fields['area']) == S['dx'][i] * S['dy'][j]]))
         e.prove(okxy, 'post:same_horizontal_spacings_and_position' + tag)
+        pa = f2['permeability_angle']
+        e.prove(pa == 0 or _valid(e, to_real(pa) == 0), 'post:same_orientation_angle_zero' + tag)
         oks = okxy and all(_valid(e, to_real(e.getattr(c, 'surface')) == to_real(S['surf'][ci])) for ci, c in enumerate(cols2))
         e.prove(oks, 'post:same_column_surface_elevations' + tag)
         e.prove(f2['_atmosphere_type'] == atm and f2['_convention'] == convention, 'post:requested_atmosphere_arrangement_and_convention' + tag)
